@@ -297,7 +297,6 @@ func init() {
 		Assumptions: commonAssumptions})
 }
 
-
 // ed25519PrivateKeyDecodeGates: the Ed25519 private-key decoder accepts only the 64-byte form or the legacy 96-byte form
 // with a matching redundant public key, and keeps exactly seed‖public key (shared by C11 and by the properties whose
 // secret-key operations run on decoded keys: C12, C13, C14).
@@ -357,7 +356,6 @@ func ed25519PrivateKeyDecodeGates(c *an.Check) *ssa.Function {
 	c.Require(okCopy && nCopy == 1, "PROVENANCE", "crypto.UnmarshalEd25519PrivateKey keeps data[:64] of the 96-byte form", usk, "", nCopy, "copy(newKey, data[:PrivateKeySize])", "the 64 key bytes kept from the 96-byte form are not the first 64 bytes (seed‖public key)")
 	return usk
 }
-
 
 // privateKeyRawIsCopy: exporting a private key hands out a copy — callers wipe exported secrets (scrub.Scrub), which must
 // not reach into the live key.
